@@ -312,6 +312,19 @@ fn twin_datetime(r: &mut Rng) {
             }
         } } }
     }
+    // ... also for a date-time inside a leap second (nanosecond field >= 10^9 on second 59): the instant is timestamp + field
+    {
+        use std::time::{Duration, SystemTime, UNIX_EPOCH};
+        for ts in [-1i64, -61, -86_401, -1_000_000_021, 59, 119, 86_399, 1_483_228_799, -62_135_596_801] { for ns in [1_000_000_000u32, 1_000_000_001, 1_500_000_000, 1_999_999_999] {
+            let dt = match DateTime::from_timestamp(ts, ns) { Some(d) => d, None => continue };
+            let total = ts as i128 * 1_000_000_000 + ns as i128;
+            let mag = total.unsigned_abs();
+            let d = Duration::new((mag / 1_000_000_000) as u64, (mag % 1_000_000_000) as u32);
+            let want = if total >= 0 { UNIX_EPOCH.checked_add(d) } else { UNIX_EPOCH.checked_sub(d) };
+            let want = match want { Some(w) => w, None => continue };
+            chk!("SystemTime::from(DateTime) in a leap second", (ts, ns), guard(|| SystemTime::from(dt)), Ok(want));
+        } }
+    }
     let xs = ndt_grid(r); let ds = td_small_grid(r);
     for &x in &xs {
         let dt = x.and_utc();
